@@ -12,6 +12,8 @@ func genC03(seed uint64, tier string, idx int) *Plan {
 	p, g := newPlan("C03", seed, tier)
 	p.Svc.Handlers = "parse"
 	p.Svc.Dialect = 1 + g.r.intn(5)
+	p.Svc.Ext = g.r.chance(35)
+	ext66 := g.r.chance(25) // 0x66 items with list entries only in part of the runs (see DESIGN, known finding)
 	used := map[string]bool{}
 	nconn := 1 + g.r.intn(2)
 	for c := 0; c < nconn; c++ {
@@ -22,6 +24,9 @@ func genC03(seed uint64, tier string, idx int) *Plan {
 		var ids []uint16
 		for k := 1 + g.r.intn(3); k > 0; k-- {
 			ids = append(ids, handledIDs[g.r.intn(len(handledIDs))])
+		}
+		if p.Svc.Ext {
+			ids = append(ids, 0x0200, 0x0200)
 		}
 		n := 4 + g.r.intn(30)
 		var frames []SentFrame
@@ -58,6 +63,9 @@ func genC03(seed uint64, tier string, idx int) *Plan {
 				} else {
 					body = g.wellFormedBody(id, v19, phone)
 				}
+			}
+			if p.Svc.Ext && id == 0x0200 && g.r.chance(70) {
+				body = g.withExtItems(body, ext66)
 			}
 			if len(body) > 1023 {
 				body = body[:1023]
@@ -110,4 +118,52 @@ func init() {
 			return ""
 		},
 		Interesting: func(r *Result) bool { return r.Rare["c03.parse_calls"] >= 4 }})
+}
+
+// withExtItems appends one to three vendor extension items (0x64, 0x65, 0x66, 0x67, 0x70) to a location body:
+// mostly of the length the parser accepts, now and then one off, and for 0x66 with and without list entries.
+func (g *genCtx) withExtItems(body []byte, lists bool) []byte {
+	body = append([]byte(nil), body...)
+	if len(body) > 28 && g.r.chance(50) {
+		body = body[:28] // extension items directly after the fixed part
+	}
+	for k := 1 + g.r.intn(3); k > 0; k-- {
+		id := []byte{0x64, 0x65, 0x66, 0x67, 0x70}[g.r.intn(5)]
+		n := map[byte]int{0x64: 47, 0x65: 47, 0x66: 40, 0x67: 41, 0x70: 47}[id]
+		var content []byte
+		if id == 0x66 {
+			cnt := 0
+			if lists {
+				cnt = g.r.intn(4)
+			}
+			switch g.r.intn(6) {
+			case 0:
+				n = 40 // ends right before the count byte
+			case 1:
+				n = 41 + 9*cnt // the standard's layout
+			default:
+				n = 40 + 9*cnt // the layout the repository's parser accepts
+			}
+			content = g.r.bytes(n)
+			if n > 40 {
+				content[40] = byte(cnt)
+			}
+		} else {
+			if g.r.chance(12) {
+				n += g.r.pick(-1, 1)
+			}
+			content = g.r.bytes(n)
+		}
+		// status words are often zero or a single bit, so that a flag left over from an earlier parse shows
+		if len(content) >= 40 && g.r.chance(50) {
+			for i := 20; i < 32 && i < len(content); i++ {
+				content[i] = 0
+			}
+		}
+		if len(body)+2+len(content) > 1023 {
+			break
+		}
+		body = append(append(body, id, byte(len(content))), content...)
+	}
+	return body
 }
